@@ -323,6 +323,29 @@ def h_grouping(E, idx):
     return err
 
 
+def h_grouping_sizes(E):
+    """2-4 groups whose sizes are symbolic integers in 1..4, labels in blocks or interleaved: an unordered list is constructed iff all groups have the
+    same size (sizes that merely AVERAGE to the first group's size included), an ordered one always"""
+    import mitxgraders as m
+    from mitxgraders.exceptions import ConfigError
+    from voluptuous import Error as Invalid
+    k = E.fork_int('groups', 2, 4)
+    sizes = [E.fork_int('size%d' % i, 1, 4) for i in range(k)]
+    ordered = E.fork_bool('ordered')
+    interleaved = E.fork_bool('interleaved')
+    grouping = [i + 1 for i in range(k) for _ in range(sizes[i])]
+    if interleaved:
+        grouping = sorted(grouping, key=lambda g: (grouping.index(g) + g) % 2)      # some deterministic shuffle keeping the multiset
+    sub = m.ListGrader(subgraders=m.StringGrader(), ordered=True)
+    try:
+        m.ListGrader(answers=[['a', 'b']] * k, subgraders=sub, ordered=ordered, grouping=grouping)
+        err = False
+    except (ConfigError, Invalid):
+        err = True
+    E.check('grouping-rules', err == (not (ordered or len(set(sizes)) == 1)))
+    return err
+
+
 def h_nested_delims(E):
     import mitxgraders as m
     from mitxgraders.exceptions import ConfigError
@@ -558,6 +581,7 @@ def harnesses(tier):
     add(h_single_answer_list, 'single_answer_list', {}, '0-3 answers')
     for i in range(len(GROUPINGS)):
         add(h_grouping, 'grouping', dict(i=i), str(GROUPINGS[i][0]))
+    add(h_grouping_sizes, 'grouping_sizes', {}, '2-4 groups, sizes 1..4 as symbolic integers, ordered/unordered, blocks/interleaved', validate=False)
     add(h_nested_delims, 'nested_delimiters', {}, '3x3 delimiters')
     add(h_collisions, 'collisions', {}, 'presence flags')
     add(h_override, 'override', {}, 'presence flags')
